@@ -1,7 +1,8 @@
 (* C20_lex.v — C20 (diagnostics point at the right line), TEXT LEVEL: for every input string, the
    lineno / lexpos of every token the tokenizer produces, and of its LexerError. *)
 From Coq Require Import String NArith ZArith List Bool.
-From BP Require Import TotalBase LexBase Lex LexSpec LexCase LexProofs.
+From BP Require Import Lint.
+From BP Require Import TotalBase LexBase Lex LexSpec LexCase LexProofs LexLint.
 From BPGen Require Import GenLexer.
 Import ListNotations.
 
@@ -24,6 +25,15 @@ Theorem C20_lex_error_position : forall uw s its cls c l rem,
   /\ l = (1 + count_nl (prefix (zlen (items_text its)) s))%Z.
 Proof. exact lex_error_position. Qed.
 Print Assumptions C20_lex_error_position.
+
+(* connection with the cli module (Lint.v): the lineno of a token and the column that Parser._get_col
+   (translated: Lint.col_of) computes from its lexpos are the 1-based (line, column) of the first
+   character of the lexeme — on every line, for every input ([shadow]: same length, same newlines) *)
+Theorem C20_lex_token_linecol : forall uw s its e rem t,
+  lex_run uw s = (its, e, rem) -> In t (tokens_of its) ->
+  linecol (shadow s) (Z.to_nat (t_pos t)) = (t_line t, col_of (shadow s) (Z.to_nat (t_pos t))).
+Proof. exact token_linecol. Qed.
+Print Assumptions C20_lex_token_linecol.
 
 (* only the newline rule can match a "\n": COMMENT, STRING_LITERAL, ... never span a line *)
 Theorem C20_lex_only_newline_spans_lines :
